@@ -1380,7 +1380,8 @@ func (c *control) dirAS(colon, at bool, params []any, p *slip.Printer) {
 	for ; 0 < minpad; minpad-- {
 		pad = append(pad, padchar...)
 	}
-	for len(out)+len(pad) < mincol {
+	// Columns are characters, not bytes.
+	for utf8.RuneCount(out)+utf8.RuneCount(pad) < mincol {
 		for i := colinc; 0 < i; i-- {
 			pad = append(pad, padchar...)
 		}
